@@ -64,8 +64,39 @@ PolyOK(e) ==
   /\ r.dist_l = r.dist_r
   /\ r.a_one = r.a /\ r.a_zero = r.zero /\ r.a_plus_zero = r.a
 
+(* ---- large exactly representable integers: signed values [s |-> -1 / 0 / 1, m |-> limbs]; the defining formulas ---- *)
+(* complex (a,b)(c,d) = (ac - bd, ad + bc), expected utility (p,u)(q,v) = (pq, pv + uq), evaluated on limbs            *)
+SZ == [s |-> 0, m |-> <<0>>]
+SNorm(x) == IF x.m = <<0>> THEN SZ ELSE x
+SNeg(x) == SNorm([s |-> 0 - x.s, m |-> x.m])
+SMul(x, y) == SNorm([s |-> x.s * y.s, m |-> IF x.s * y.s = 0 THEN <<0>> ELSE LMul(x.m, y.m)])
+SAdd(x, y) ==
+  IF x.s = 0 THEN y ELSE IF y.s = 0 THEN x
+  ELSE IF x.s = y.s THEN [s |-> x.s, m |-> LAdd(x.m, y.m)]
+  ELSE IF LCmp(x.m, y.m) = 0 THEN SZ
+  ELSE IF LCmp(x.m, y.m) = 1 THEN [s |-> x.s, m |-> LSub(x.m, y.m)] ELSE [s |-> y.s, m |-> LSub(y.m, x.m)]
+Two53 == <<992, 5474, 1992, 9007>>
+Exact(x) == x.s \in {-1, 0, 1} /\ IsLimbs(x.m) /\ LCmp(x.m, Two53) <= 0
+BigMul(sr, x, y) ==
+  IF sr = "complex" THEN <<SAdd(SMul(x[1], y[1]), SNeg(SMul(x[2], y[2]))), SAdd(SMul(x[1], y[2]), SMul(x[2], y[1]))>>
+  ELSE <<SMul(x[1], y[1]), SAdd(SMul(x[1], y[2]), SMul(x[2], y[1]))>>
+BigDomain(sr, x, y) ==                          \* the stated domain: operands, partial products and results exactly representable
+  /\ \A i \in 1 .. 2 : Exact(x[i]) /\ Exact(y[i])
+  /\ \A i \in 1 .. 2 : \A j \in 1 .. 2 : Exact(SMul(x[i], y[j]))
+  /\ \A i \in 1 .. 2 : Exact(BigMul(sr, x, y)[i])
+Big2OK(e) ==
+  LET x == <<SNorm(e.x[1]), SNorm(e.x[2])>>  y == <<SNorm(e.y[1]), SNorm(e.y[2])>>
+      N(p) == <<SNorm(p[1]), SNorm(p[2])>>
+      one == <<[s |-> 1, m |-> <<1>>], SZ>>
+  IN /\ BigDomain(e.sr, x, y)                  \* the recorder stays inside the domain
+     /\ N(e.r.mul) = BigMul(e.sr, x, y)
+     /\ N(e.r.mul_ba) = BigMul(e.sr, x, y)     \* commutative
+     /\ N(e.r.x_one) = x /\ N(e.r.one_x) = x   \* identity
+     /\ N(e.r.x_zero) = <<SZ, SZ>>             \* annihilating zero
+
 EventOK(e) ==
   CASE e.ev = "ff" -> FFOK(e)
+    [] e.ev = "big2" -> Big2OK(e)
     [] e.ev = "sr3" -> SR3OK(e)
     [] e.ev = "poly" -> PolyOK(e)
 
